@@ -29,6 +29,74 @@ PROPS["C03"] = dict(
        H("c03::c03_twin_must_fail", expect_fail=True, bounds="vacuity twin", mem_gb=6)],
 )
 
+# --------------------------------------------------------------------------- C07
+import jobs_e3
+PROPS["C07"] = dict(
+    functions=["revm::EvmContext::{make_call_frame, make_create_frame, make_eofcreate_frame} (crates/revm/src/context/evm_context.rs)",
+               "revm::InnerEvmContext::{call_return, create_return, eofcreate_return} (crates/revm/src/context/inner_evm_context.rs)"],
+    bounds="every path of the (acyclic) MIR control-flow graph of the six functions, unwind/cleanup edges excluded; paths that return Err (a `?` on a "
+           "database error aborts the transaction) are not constrained; branch conditions abstracted to free choices (over-approximation of the real paths)",
+    outside="that run_the_loop pairs every frame with exactly one *_return (whole call loop); the numeric 1024 limit at run time beyond the constant "
+            "CALL_STACK_LIMIT == 1024 and the `depth() > CALL_STACK_LIMIT` test being the first branch; callees other than the summarised ones are assumed depth-neutral",
+    assumptions=["callee summaries: JournaledState::checkpoint +1, checkpoint_commit -1, checkpoint_revert -1, create_account_checkpoint Ok:+1 / Err:0",
+                 "nightly MIR control flow equals the compiled control flow", "z3 4.8.12 and cvc5 1.0 agree on every query",
+                 "a sat answer is a candidate path and is only reported after the native scenario reproduces the depth change"],
+    jobs=[dict(name="e3::frame_depth_balance", fn=jobs_e3.run_depth_balance)],
+)
+
+# --------------------------------------------------------------------------- C22
+PROPS["C22"] = dict(
+    functions=["revm::Handler::{pop_handle_register, create_handle_generic, modify_spec_id} (crates/revm/src/handler.rs)"],
+    bounds="every call to Handler::mainnet / mainnet_with_spec inside the three rebuild functions (all call sites found in the MIR of the function bodies); "
+           "the reward argument is resolved through copies/moves (depth <= 6) to a literal, to `self.post_execution.reward_beneficiary.is_some()`, or to unknown",
+    outside="that PostExecutionHandler::reward_beneficiary with the handle absent leaves the context untouched and that every other effect of the transaction is "
+            "identical (whole-transaction differential); handle registers that themselves replace the reward handle; the explicit reset paths "
+            "(EvmBuilder::reset_handler*, Handler::new) which by documentation restore the default; the optimism vault payments",
+    assumptions=["Handler::mainnet::<SPEC>(flag) installs the reward handle iff flag (PostExecutionHandler::new, read in source)",
+                 "registers re-applied after the rebuild do the same thing they did before it",
+                 "z3 4.8.12 and cvc5 1.0 agree; candidates are replayed on the real Handler API by the native tool"],
+    jobs=[dict(name="e3::reward_flag_propagation", fn=jobs_e3.run_reward_flag)],
+)
+
+# --------------------------------------------------------------------------- C11
+_C11 = ['c11_child_p0_c32', 'c11_child_p32_c64', 'c11_child_p64_c0', 'c11_child_p96_c96', 'c11_cost_base_p32_c64', 'c11_cost_base_p0_c96', 'c11_cost_base_p64_c0', 'c11_resize_0_32', 'c11_resize_32_96', 'c11_resize_64_64', 'c11_expand_0_to_1', 'c11_expand_0_to_33', 'c11_expand_32_to_64', 'c11_expand_32_to_96_after_child', 'c11_expand_0_to_32_after_child', 'c11_window_c64_n8_off0_d0', 'c11_window_c64_n8_off56_d20', 'c11_window_c64_n32_off17_d30', 'c11_window_c32_n32_off0_d5', 'c11_outcome_ret8_out16', 'c11_outcome_ret40_out16', 'c11_outcome_ret0_out16', 'c11_outcome_ret16_out0', 'c11_expand_huge_fails']
+PROPS["C11"] = dict(
+    functions=["revm_interpreter::SharedMemory::{with_capacity, new_context, free_context, resize, len, is_empty, current_expansion_cost, get_byte, "
+               "set, set_byte, set_data, copy, slice/slice_mut} (crates/interpreter/src/interpreter/shared_memory.rs)",
+               "revm_interpreter::interpreter::resize_memory", "revm_interpreter::Interpreter::insert_call_outcome (crates/interpreter/src/interpreter.rs)"],
+    bounds="context sizes, write offsets and lengths concrete per harness (parent 0..96 B, child 0..96 B, windows 8..33 B, return data 0..40 B); all byte "
+           "contents, the checked byte position (symbolic witness index), gas values and the call outcome class symbolic; expansion to every size > 4 GiB "
+           "with gas < 2^40; unwind 100",
+    outside="contexts larger than 96 bytes, nesting deeper than 2, operation sequences beyond those in the harness bodies; a resize AFTER free_context "
+            "(the restored length is read back from the heap, stops being a constant for CBMC and the harness does not close): that a later frame reads "
+            "zeros over a returned child's bytes rests on Vec::resize(_,0) writing every new element (std), exercised from a fresh allocation; memory_limit feature",
+    assumptions=["std Vec semantics trusted", "memory_gas reference 3w + w*w/512 written literally", "Kani/CBMC/CaDiCaL trusted"],
+    harnesses=[H("c11::" + n, timeout=900, mem_gb=6, bounds=n) for n in _C11]
+    + [H("c11::c11_twin_must_fail", expect_fail=True, bounds="vacuity twin", mem_gb=6)],
+)
+
+# --------------------------------------------------------------------------- C12
+_C12 = ['c12_push_0', 'c12_push_1', 'c12_push_1023', 'c12_push_1024', 'c12_pop_0', 'c12_pop_1', 'c12_pop_2', 'c12_pop_1024', 'c12_peek_set_0', 'c12_peek_set_1', 'c12_peek_set_17', 'c12_peek_set_1024', 'c12_dup_n0_k1', 'c12_dup_n1_k1', 'c12_dup_n1_k2', 'c12_dup_n16_k16', 'c12_dup_n16_k17', 'c12_dup_n255_k256', 'c12_dup_n300_k256', 'c12_dup_n1023_k1', 'c12_dup_n1023_k16', 'c12_dup_n1024_k1', 'c12_dup_n1024_k16', 'c12_exchange_n0_a0_m1', 'c12_exchange_n1_a0_m1', 'c12_exchange_n2_a0_m1', 'c12_exchange_n3_a1_m1', 'c12_exchange_n3_a1_m2', 'c12_exchange_n3_a2_m1', 'c12_exchange_n17_a0_m16', 'c12_exchange_n17_a0_m17', 'c12_exchange_n17_a16_m1', 'c12_exchange_n33_a16_m16', 'c12_exchange_n32_a16_m16', 'c12_exchange_n1024_a0_m1023', 'c12_exchange_n1024_a1_m1023', 'c12_push_slice_n0_l0', 'c12_push_slice_n0_l1', 'c12_push_slice_n0_l5', 'c12_push_slice_n0_l8', 'c12_push_slice_n0_l20', 'c12_push_slice_n0_l31', 'c12_push_slice_n0_l32', 'c12_push_slice_n0_l33', 'c12_push_slice_n0_l45', 'c12_push_slice_n0_l64', 'c12_push_slice_n0_l70', 'c12_push_slice_n1021_l70', 'c12_push_slice_n1022_l70', 'c12_push_slice_n1022_l64', 'c12_push_slice_n1023_l33', 'c12_push_slice_n1023_l32', 'c12_push_slice_n1024_l1', 'c12_push_slice_n1024_l0']
+_C12_THOROUGH_ONLY = {"c12_push_slice_n0_l5", "c12_push_slice_n0_l20", "c12_push_slice_n0_l45", "c12_push_slice_n0_l64", "c12_push_slice_n1022_l64",
+                      "c12_exchange_n2_a0_m1", "c12_exchange_n3_a2_m1", "c12_exchange_n32_a16_m16", "c12_dup_n300_k256", "c12_dup_n1_k2", "c12_dup_n1024_k16", "c12_pop_2", "c12_peek_set_1"}
+PROPS["C12"] = dict(
+    functions=["revm_interpreter::Stack::{new, push, push_b256, pop, peek, set, dup, swap, exchange, push_slice, len, data} "
+               "(crates/interpreter/src/interpreter/stack.rs), on the real 1024-word buffer"],
+    bounds="single-step inductive: pre-state = real Stack::new() buffer with arbitrary (symbolic) contents at concrete lengths "
+           "{0,1,2,16,17,300,1021..1024} as named per harness; arguments: all 256-bit values; peek/set index fully symbolic; dup k in {1,2,15,16,17,256}; "
+           "exchange (n,a,m) triples on both sides of every bound; push_slice lengths {0,1,5,8,20,31,32,33,45,64,70} with symbolic bytes; "
+           "frame condition checked through a symbolic witness position; CBMC pointer/bounds checks on; --arrays-uf-always",
+    outside="pre-state lengths and dup/exchange offsets other than the instantiated ones (a symbolic length or offset turns every 32-byte copy into a "
+            "symbolic-offset memcpy that CBMC does not finish); slices longer than 70 bytes; operation sequences longer than one step "
+            "(covered by the inductive invariant len<=1024, capacity==1024)",
+    assumptions=["dup(0) and exchange(_,0) are excluded (documented preconditions, debug-asserted by the crate)",
+                 "the partial last word of push_slice is the big-endian integer of the remaining bytes (zero-extended on the high side), as pinned by the "
+                 "repository's own unit test push_slices and required by PUSH1..PUSH31",
+                 "uninitialised buffer contents are modelled by CBMC as arbitrary fixed values", "Kani/CBMC/CaDiCaL trusted"],
+    harnesses=[H("c12::" + n, tier=("thorough" if n in _C12_THOROUGH_ONLY else "quick"), flags=ARRAYS_UF, timeout=1200, mem_gb=10, bounds=n) for n in _C12]
+    + [H("c12::c12_twin_must_fail", expect_fail=True, flags=ARRAYS_UF, bounds="vacuity twin", mem_gb=6)],
+)
+
 # --------------------------------------------------------------------------- C13
 PROPS["C13"] = dict(
     functions=["revm_interpreter::Gas::{new,new_spent,record_cost,erase_cost,spend_all,record_refund,set_final_refund,"
@@ -113,6 +181,25 @@ PROPS["C14"] = dict(
 
 # --------------------------------------------------------------------------- manifest text per claimed property
 CLAIMS = {
+    "C07": dict(
+        text="The control-flow graphs of the six frame functions are taken from the MIR dump and encoded for z3 and cvc5: a path from entry to a normal "
+             "return on which the number of checkpoints opened differs from the number committed/reverted (0 for a returned result, +1 for a returned frame that "
+             "carries the checkpoint, -1 for the *_return functions) is searched symbolically over all paths. unsat = every path is balanced; a model is "
+             "replayed as a concrete make_*_frame scenario on the real API before it is reported.",
+        note="Data is abstracted: only control flow and the depth-affecting callees are modelled, which over-approximates the real paths. The pairing of frames "
+             "and *_return calls by the call loop is outside the claim.",
+        technique="SMT path search (z3+cvc5) over the MIR control-flow graph with callee depth summaries; native replay of candidate paths",
+        engine="smt-mir",
+        design_ref="DESIGN.md §5 C07"),
+    "C22": dict(
+        text="For each of the three handler rebuild paths the MIR data flow of the reward argument passed to Handler::mainnet* is resolved and the question "
+             "`can the rebuilt handler's reward switch differ from the current one` is put to z3 and cvc5 (one query per call site, all call sites of the "
+             "function body). A model is replayed through the real Handler API (native tool) before it is reported.",
+        note="Partial: decides persistence of the switch across pop_handle_register / create_handle_generic / modify_spec_id only; honouring the switch inside a "
+             "transaction and identical other effects are whole-transaction statements outside this technique's reach here.",
+        technique="MIR data-flow resolution + SMT query (z3+cvc5) per rebuild call site; native replay on the real Handler",
+        engine="smt-mir",
+        design_ref="DESIGN.md §5 C22"),
     "C13": dict(
         text="Bounded model checking of the compiled Gas meter with Kani/CBMC: every method is decided for all 64-bit values from every "
              "state satisfying remaining<=limit (single-step induction), plus all 4-step method sequences against an unbounded-integer model. "
@@ -142,7 +229,7 @@ CLAIMS = {
         engine="kani-cbmc + smt-mir",
         design_ref="DESIGN.md §5 C32"),
 }
-SMT_SERVES = {"C32"}
+SMT_SERVES = {"C32", "C07", "C22"}
 
 # --------------------------------------------------------------------------- not applicable (reason shown in MANIFEST.json)
 NOT_APPLICABLE = {
